@@ -20,7 +20,7 @@ FIELD_OF = {1: "best_block", 2: "newest_valid_block", 3: "ancestor_block",
             5: "ancestor_receipts_root", 0x81: "updating.best_block",
             0x82: "updating.newest_valid_block", 0x84: "updating.next_expected_block"}
 NETWORKS = {1: "mainnet", 2: "testnet", 3: "regtest"}
-REQUIRED_LABELS = {t: ["cmd:getPubKey", "cmd:blockchainState", "cmd:blockchainParameters",
+REQUIRED_LABELS = {t: ["history", "reconnect", "cmd:getPubKey", "cmd:blockchainState", "cmd:blockchainParameters",
                        "cmd:signerHeartbeat", "cmd:uiHeartbeat", "uihb:ok", "uihb:device-error",
                        "diff:0", "diff:max", "sig:0x31"] for t in ("quick", "thorough")}
 
@@ -35,7 +35,7 @@ def sigs(draw):
 
 
 @st.composite
-def cases(draw, tier):
+def one_query(draw, tier):
     cmd = draw(st.sampled_from(["getPubKey", "blockchainState", "blockchainParameters",
                                 "signerHeartbeat", "uiHeartbeat"]))
     c = {"cmd": cmd}
@@ -78,9 +78,55 @@ def der(sg):
     return refs.der_sig(sg["r"], sg["s"], sg["first"], sg["trailing"])
 
 
+@st.composite
+def cases(draw, tier):
+    """1..3 queries against ONE manager lifetime; the device state changes between them (an
+    advance, a signer upgrade, a reconnection to another device)."""
+    n = draw(st.sampled_from([1, 1, 2, 2, 3]))
+    steps = []
+    first = draw(one_query(tier))
+    steps.append(first)
+    for _ in range(n - 1):
+        nxt = draw(one_query(tier))
+        if draw(st.booleans()):
+            nxt["cmd"] = first["cmd"]         # the same query again, over a changed device
+            nxt = draw(one_query_of(tier, first["cmd"]))
+        nxt["reconnect"] = draw(st.booleans())
+        steps.append(nxt)
+    return {"steps": steps}
+
+
+@st.composite
+def one_query_of(draw, tier, cmd):
+    for _ in range(40):
+        q = draw(one_query(tier))
+        if q["cmd"] == cmd:
+            return q
+    q = draw(one_query(tier))
+    return q
+
+
 def run_case(c):
-    cmd = c["cmd"]
     w = mw.default_world()
+    p = None
+    labels = []
+    if len(c["steps"]) >= 2:
+        labels.append("history")
+    for i, q in enumerate(c["steps"]):
+        if p is not None and q.get("reconnect"):
+            # the link drops and the manager reconnects (to a possibly different device state)
+            p._comm_issue = True
+            labels.append("reconnect")
+        if p is not None and w.mode != SIGNER:
+            break          # an earlier uiHeartbeat left the device elsewhere: history ends
+        w.mode_error = False
+        out, p = run_query(q, w, p)
+        labels.extend(out)
+    return Out(labels, True)
+
+
+def run_query(c, w, p):
+    cmd = c["cmd"]
     labels = ["cmd:" + cmd]
     req = {"command": cmd, "version": 5}
     if cmd == "getPubKey":
@@ -114,7 +160,8 @@ def run_case(c):
                          "ui_hash": other["hash"], "ui_pubkey": other["pubkey"]})
         if c["sig"]["first"] == 0x31:
             labels.append("sig:0x31")
-    p = mw.stack(w)
+    if p is None:
+        p = mw.stack(w)
     if cmd == "uiHeartbeat" and c.get("mode_error_after"):
         # GET_MODE starts failing after the n-th exit (device in an unknown state)
         n_target = c["mode_error_after"]
@@ -189,7 +236,7 @@ def run_case(c):
                 raise Violation("uihb-nominal-failed", repr(rep))
             if not nominal and c["exit_modes"][0] != UIHB and rep["errorcode"] == 0:
                 raise Violation("uihb-success-without-ui-mode", repr(c["exit_modes"]))
-    return Out(labels, True)
+    return labels, p
 
 
 def stages(tier):
